@@ -61,7 +61,11 @@ impl FlagConverter {
         // first of all we need to make sure that each &Val is only a primitive type.
         for v in def.iter() {
             let vref = v.as_ref();
-            if vref.is_list() || vref.is_tuple() {
+            if vref.is_list()
+                || vref.is_tuple()
+                || vref.is_env()
+                || matches!(vref, Val::Constraint(_))
+            {
                 eprintln!(
                     "Skipping non primitive val in list for flag {}{}",
                     pfx, name
